@@ -625,8 +625,9 @@ func judge(ds []decl, pr probe, o outcome, pure bool) []finding {
 			// no declared pattern was reported: the parameter positions are those of the selected pattern
 			if own && !paramsOK(e.pat, pr.URL, o.Params) {
 				pk := "differ-from-request-segments"
-				if k == "wildcard-fallback-reported-as-walked-path" {
-					pk = "parameters-of-an-abandoned-descent-reported-with-wildcard-fallback"
+				if e.pat.Wildcard && o.Norm != strings.TrimSuffix(strings.Trim(e.URL, "./"), "/*") {
+					// the wildcard was reached by falling back from (or through) a longer walked path
+					pk = "walked-path-parameters-reported-with-wildcard-policy"
 				}
 				fs = append(fs, finding{sig: "C13/path-params/" + pk,
 					detail: fmt.Sprintf("%s %s: selected %q (normalized %q) but path parameters %v; the request's segments at that pattern's parameter positions are %v", pr.Method, pr.URL, e.name(), o.Norm, o.Params, e.pat.PathParams(pr.URL))})
@@ -867,6 +868,13 @@ func runCase(idx int, args sim.Args, c caseT, v *sim.Verdict, env *e2eEnv) {
 				w.OrderA = names(c, b.order)
 				w.Probe = &probes[k]
 				w.OutcomeA = b.outs[k].key()
+				if strings.HasPrefix(f.sig, "C13/dropped/") {
+					// The statement is an only-if ("applied ... only if"): a matching endpoint that is
+					// not selected at all (greedy lookup without backtracking, method absent at the
+					// matched node) does not contradict it. Reported as a counter, never as a violation.
+					v.Count("info:"+f.sig, 1)
+					continue
+				}
 				v.Violate(f.sig, fmt.Sprintf("declared in this order: %q\n%s", w.OrderA, f.detail), w)
 			}
 		}
